@@ -196,6 +196,51 @@ func runPathRel(line string, res *rep.Result) {
 	}
 }
 
+// runPathQuery: one QRY line "path|query|0/1" -- a concrete data path against a query whose
+// element names may be the wildcard "*" (PathMatchesQuery only; ComparePaths has no name wildcard).
+func runPathQuery(line string, res *rep.Result) {
+	f := strings.Split(line, "|")
+	if len(f) != 3 || len(f[2]) != 1 {
+		res.InfraErr("bad QRY line %q", line)
+		return
+	}
+	a, b := prParsePath(f[0], ""), prParsePath(f[1], "")
+	want := f[2] == "1"
+	pc := &PRCase{Sub: "pathrel", Line: "QRY " + line}
+	ac, bc := proto.Clone(a).(*gpb.Path), proto.Clone(b).(*gpb.Path)
+	res.Eval(1)
+	starNames, keyed := 0, 0
+	for _, e := range b.Elem {
+		if e.Name == "*" {
+			starNames++
+			if len(e.Key) > 0 {
+				keyed++
+			}
+		}
+	}
+	res.Count("query-star-names", starNames)
+	got := map[bool]bool{}
+	for i := 0; i < 4; i++ {
+		var g bool
+		_, pan := guard(func() error { g = util.PathMatchesQuery(a, b); return nil })
+		if pan != "" {
+			res.Violate("C20", map[string]string{"fn": "PathMatchesQuery", "conjunct": "panic"}, "PathMatchesQuery panicked on "+line, pc)
+			return
+		}
+		got[g] = true
+	}
+	for g := range got {
+		if g != want {
+			res.Violate("C09", map[string]string{"fn": "PathMatchesQuery", "conjunct": "query-wildcard-name", "want": fmt.Sprint(want), "got": fmt.Sprint(g),
+				"starnames": fmt.Sprint(starNames), "keyedstar": fmt.Sprint(keyed)},
+				fmt.Sprintf("PathMatchesQuery(path %s, query %s) = %v, the query's denotation says %v", f[0], f[1], g, want), pc)
+		}
+	}
+	if !proto.Equal(a, ac) || !proto.Equal(b, bc) {
+		res.Violate("C11", map[string]string{"fn": "PathMatchesQuery", "conjunct": "input-mutated"}, "PathMatchesQuery modified its argument: "+line, pc)
+	}
+}
+
 func pathrelCmd(args []string) *rep.Result {
 	fs := flag.NewFlagSet("pathrel", flag.ExitOnError)
 	var c common
@@ -209,11 +254,25 @@ func pathrelCmd(args []string) *rep.Result {
 			res.InfraErr("case: %v", err)
 			return res
 		}
-		runPathRel(pc.Line, res)
+		if strings.HasPrefix(pc.Line, "QRY ") {
+			runPathQuery(strings.TrimPrefix(pc.Line, "QRY "), res)
+		} else {
+			runPathRel(pc.Line, res)
+		}
 		return res
 	}
 	for _, in := range strings.Split(c.in, ",") {
 		lines, err := readLines(in, "REL")
+		qlines, qerr := readLines(in, "QRY")
+		if qerr == nil {
+			res.Distinct += len(qlines)
+			for _, l := range qlines {
+				runPathQuery(l, res)
+			}
+		}
+		if (err != nil || len(lines) == 0) && len(qlines) > 0 {
+			continue
+		}
 		if err != nil || len(lines) == 0 {
 			res.InfraErr("pathrel: no cases in %s (%v)", in, err)
 			return res
